@@ -232,7 +232,15 @@ def run(ctx, only=None):
             dumped_seen |= (r['mech'] == 'chld_dump' and code == pv['CLD_DUMPED'])
             want = (r['sig'], cause, 1, d['peer'][0], d['peer'][1]) if fills else (r['sig'], cause, 0, 0, 0)
             # (2) the kernel did what the mechanism table and the oracle say
-            if signo != r['sig'] or code not in codes_ok:
+            if signo != r['sig']:
+                # the record the library hands to its actions is not about this delivery at all: not the kernel's record
+                # (e.g. the handler is no longer installed with SA_SIGINFO) - what Origin reports is built from stale memory
+                ctx.evaluations += 1
+                ctx.violation({'mech': r['mech'], 'sig': r['sig'], 'uid': r['uid'], 'delivery': d['i'], 'how': 'record'},
+                              '%s %d: the siginfo record handed to the actions has si_signo %d, si_code %d for a delivery of signal %d; Origin by hand %r, through the exfiltrator %r, '
+                              'the delivery was %r' % (r['mech'], r['sig'], signo, code, r['sig'], hand, it, want), case)
+                continue
+            if code not in codes_ok:
                 mech_bad.append(dict(tag, why='kernel delivered signo %d code %d, expected signal %d code in %r' % (signo, code, r['sig'], codes_ok), delivery=d))
                 continue
             if fills and (w0, w1) != tuple(d['peer']):
